@@ -668,4 +668,14 @@ theorem occTable_covers :
     occTable.any (fun o => o.cls == "RelativisticPVector" && o.hat && o.nChannels == 2) = true := by
   decide
 
+/-! ## Non-vacuity of the hypotheses -/
+
+/-- The denominators of the regenerated F-vector entries are non-zero e.g. at K = 0, ρ = 1 (and, by
+`nrF2_dens_ne_of_real` / `relF2_dens_ne_of_real`, for every real symmetric K and positive ρ). -/
+example : nrF2_den1 0 0 0 0 1 1 ≠ 0 ∧ nrF2_den2 0 0 0 0 1 1 ≠ 0 := by
+  simp [nrF2_den1, nrF2_den2]
+
+example : relF2_den1 1 1 0 0 0 0 1 1 ≠ 0 ∧ relF2_den2 1 1 0 0 0 0 1 1 ≠ 0 := by
+  simp [relF2_den1, relF2_den2, Complex.one_cpow]
+
 end Ampverif.Props.C10
